@@ -18,5 +18,5 @@ cd /verif
 rm -rf .build/evidence.keep; cp -a evidence .build/evidence.keep   # seeded runs must not leave their evidence behind
 for c in $checks; do echo "--- check $c quick"; ./check $c quick 2>&1 | tail -4 | cut -c1-300; echo "exit=$?"; done
 rm -rf evidence; mv .build/evidence.keep evidence
-git -C /repo checkout -- . ; git -C /repo status --short | head -3
+git -C /repo checkout -- . ; git -C /repo clean -fdq ; git -C /repo status --short | head -3
 echo "demo_with_rc=$rc1 demo_without_rc=$rc2"
